@@ -476,7 +476,8 @@ def writeback(ctx):
 
 
 # --------------------------------------------------------------------------- subject plumbing
-@rule("C20.subjects", props=["C20"], min_instances=6, mutants=[
+@rule("C20.subjects", props=["C20"], min_instances=7, mutants=[
+    ("graph() evaluates a graph function once, up front", ("algebra", "        return graph_widget(\n            algebra=self,\n            raw_subjects=subjects,", "        if len(subjects) == 1 and callable(subjects[0]) and not isinstance(subjects[0], MultiVector):\n            subjects = subjects[0]()\n        return graph_widget(\n            algebra=self,\n            raw_subjects=subjects,")),
     ("subjects encode the raw subjects of a single callable without calling it", ("graph", "            pre_subjects = s()\n            if not isinstance(pre_subjects, TREE_TYPES):", "            pre_subjects = s\n            if not isinstance(pre_subjects, TREE_TYPES):")),
     ("subjects encode the cached pre_subjects", ("graph", "        return walker(encode(self._get_pre_subjects(), root=True))", "        return walker(encode(self.pre_subjects, root=True))")),
     ("message handler does not refresh", ("graph", "            self.subjects = self.get_subjects()\n\n    def _get_pre_subjects", "            self.get_subjects()\n\n    def _get_pre_subjects")),
@@ -567,6 +568,24 @@ def subjects(ctx):
     else:
         ctx.violation(q, f"Algebra.graph constructs the widget with {norm({k: v for k, v in seen.items() if k != 'algebra'})}, expected "
                          f"raw_subjects=(255, A) and options={{'grid': 1, 'lineWidth': 3}} for this algebra", fn)
+    # a single graph function must reach the widget as a function (it is re-evaluated on every update), not as the
+    # list it returns when the widget is created
+    calls = []
+    gf = Obj("function", {"fmt": "<graph function>"}, call=lambda: (calls.append(1), [a])[1])
+    seen2 = {}
+    gw2 = Obj("widget-class", call=lambda **k: (seen2.update(k), Obj("GraphWidget"))[1])
+    c = f"{q}#single callable subject"
+    try:
+        out = make_interp(repo).run(q, [alg, gf], {"graph_widget": gw2})
+    except NoValue as exc:
+        raise Unknown(c, str(exc), fn)
+    rs = seen2.get("raw_subjects")
+    if out[0] != "raise" and isinstance(rs, (tuple, list)) and len(rs) == 1 and rs[0] is gf and not calls:
+        ctx.ok(c, fn)
+    else:
+        ctx.violation(c, f"Algebra.graph(f) with a single graph function hands the widget raw_subjects={norm(rs)!r} after calling f "
+                         f"{len(calls)} time(s); expected the function itself, uncalled: the widget re-evaluates it after every update, "
+                         f"a list computed once goes stale when points are dragged", fn)
     # camera option
     q = "graph.GraphWidget._valid_options"
     fn = ctx.func(q)
